@@ -102,6 +102,16 @@ def gen_case(r):
     overrides = []
     for _ in range(r.choice([0, 0, 1, 2, 3])):
         overrides.append(gen_override(r, files))
+    if r.random() < 0.15:
+        # overrides are applied one after the other to the configuration as it is THEN: a section is set below,
+        # replaced as a whole, and set below again
+        first = gen_override(r, files)
+        if "key" in first and first["key"]:
+            base = first["key"]
+            whole = r.choice([({"m": 1}, "{m: 1}"), ({}, "{}"), ("txt", "txt"), (None, "null"), ({"k": {"n": 2}}, "{k: {n: 2}}")])
+            overrides += [{"key": base + ".x", "value": 1, "text": "1"},
+                          {"key": base, "value": whole[0], "text": whole[1]},
+                          {"key": base + ".y", "value": 2, "text": "2"}]
     # a mapping reachable under two keys of one file (YAML anchor + alias, as in the user guide)
     share = []
     if r.random() < 0.25:
@@ -132,6 +142,10 @@ def paths_of(d, prefix=()):
             yield from paths_of(v, prefix + (k,))
 
 
+# texts Python's int()/float() read differently from YAML (1.1, as PyYAML implements it): octal, strings, hex, ...
+NUMBER_LIKE = ["0644", "089", "1e5", "inf", "0x1F", "1_000", "+7", "infinity", "0o17", "1e3", "007", "-0", "1__0"]
+
+
 def gen_override(r, files):
     merged = {}
     for f in files:
@@ -158,6 +172,10 @@ def gen_override(r, files):
         text = text[:-3].strip()
     if yaml.safe_load(text) != value or type(yaml.safe_load(text)) is not type(value):
         value, text = "plain", "plain"
+    if r.random() < 0.15:
+        # the text after `=` is YAML, whatever else it may look like: what it means is what it would mean in a file
+        text = r.choice(NUMBER_LIKE)
+        value = yaml.safe_load(text)
     key = ".".join(p.replace(".", "\\.") for p in path) if r.random() > 0.15 else ".".join(path)
     return {"key": key, "value": value, "text": text}
 
